@@ -182,6 +182,27 @@ impl<T: El> Observable for MapWorld<T> {
         if !ks.is_empty() && (c || d || e) {
             return Some(format!("f64-valued map holding a NaN: m == m is {}, m == clone is {}, plain == nan is {} (all must be false)", c, d, e));
         }
+        // the same with a zero-sized value type whose PartialEq is never true: its values are compared too
+        #[derive(Clone)]
+        struct Never;
+        impl PartialEq for Never {
+            fn eq(&self, _: &Never) -> bool {
+                false
+            }
+        }
+        let mut z: griddle::HashMap<u32, Never, crate::hasher::HB> = griddle::HashMap::with_hasher(crate::hasher::HB::new(self.cfg.hk, self.cfg.seed));
+        for &(k, _) in &ks {
+            z.insert(k, Never);
+        }
+        let zc = z.clone();
+        #[allow(clippy::eq_op)]
+        let (f, g) = (z == z, z == zc);
+        if !ks.is_empty() && (f || g) {
+            return Some(format!("map with zero-sized, never-equal values: m == m is {}, m == clone is {} (both must be false)", f, g));
+        }
+        if ks.is_empty() && !(f && g) {
+            return Some("two empty maps with zero-sized values compare unequal".to_string());
+        }
         None
     }
 }
